@@ -72,7 +72,8 @@ fn run_api(c: &S) -> S {
 }
 
 fn run(c: &S) -> S {
-    if c.at(0).n() == 9 {
+    // API stage: (9 b SECS ...) has a list in third position; the hook stage (b ips pos ...) a number
+    if c.at(0).n() == 9 && matches!(c.at(2), S::L(_)) {
         return run_api(c);
     }
     let b = c.at(0).u32();
